@@ -8,7 +8,7 @@ from checks import ustr_common as U
 
 CTOR_ALPHA = [0, 47, 97, 255]
 PATH_ALPHA = [47, 97, 255]
-PATH_STRING_OPS = ["path_join", "path_join_fmt", "parent_path", "path_file_name"]
+PATH_STRING_OPS = ["path_join", "path_join_fmt", "path_join_fmt_split", "parent_path", "path_file_name"]
 # judged exactly (stored bytes = operand + NUL), not only for termination
 EXACT_PAIR_OPS = ["string_from_unixstr"]
 
@@ -23,14 +23,14 @@ def run(tier):
     results, crashes = U.run_driver(chk, bindir, "ctor", cvecs, "c10")
     for i, v in enumerate(cvecs):
         r = results.get(i, {})
-        for op in U.CTOR_OPS:
+        for op in U.CTOR_OPS_RUN:
             if op not in r:
                 continue
             chk.evaluations += 1
-            act, allowed = r[op], v[op]
+            act, allowed = r[op], v[U.ALIAS.get(op, op)]
             nontrivial.add((op, tuple(v["b"])))
             if act not in allowed:
-                documented_panic = (op == "from_str_checked")
+                documented_panic = (op == "from_str_checked")   # (its rejection is a panic by contract)
                 chk.violate({"op": op, "kind": "panic" if act == [3] and not documented_panic else "mismatch",
                              "shape": "%s->%s" % (U.shape(allowed[0]), U.shape(act))},
                             "%s(%s) produced %s, specification admits %s" % (op, v["b"], act, allowed),
@@ -47,7 +47,7 @@ def run(tier):
         r = results.get(i, {})
         for op in PATH_STRING_OPS:
             if op in r:
-                recs.append({"op": op, "a": v["a"], "b": v["b"], "out": r[op], "view": "term"})
+                recs.append(U.rec(op, v["a"], v["b"], r[op], "term"))
         for op in EXACT_PAIR_OPS:
             if op in r and not v["a"]:
                 recs.append({"op": op, "a": [], "b": v["b"], "out": r[op], "view": "raw"})
@@ -66,8 +66,15 @@ def run(tier):
         r = results.get(i, {})
         for op in PATH_STRING_OPS:
             if op in r:
-                recs.append({"op": op, "a": v["a"], "b": v["b"], "out": r[op], "view": "term"})
+                recs.append(U.rec(op, v["a"], v["b"], r[op], "term"))
     cv = []
+    # every length around the small-buffer sizes an implementation might use (round 8: a
+    # 128-byte stack buffer in from_format lost the terminator at exactly 128 bytes of text)
+    sweep = range(0, 601) if tier != "quick" else list(range(0, 140)) + list(range(250, 262)) + list(range(506, 520))
+    for n in sweep:
+        body = [97 + (k % 5) for k in range(n)]
+        cv.append({"b": body})
+        cv.append({"b": body + [0]})
     for _ in range(n_rand):
         n = rng.randint(0, L)
         b = [rng.choice([97, 98, 47, 200, 255]) for _ in range(n)]
@@ -83,9 +90,9 @@ def run(tier):
     results, crashes4 = U.run_driver(chk, bindir, "ctor", cv, "c10crand")
     for i, v in enumerate(cv):
         r = results.get(i, {})
-        for op in U.CTOR_OPS:
+        for op in U.CTOR_OPS_RUN:
             if op in r:
-                recs.append({"op": op, "a": [], "b": v["b"], "out": r[op], "view": "raw"})
+                recs.append(U.rec(op, [], v["b"], r[op], "raw"))
     # formatted text with NULs through path_join_fmt
     fv = []
     for _ in range(n_rand // 2):
@@ -131,9 +138,9 @@ def run(tier):
     chk.evaluations += len(recs)
     for k in bad:
         r = recs[k]
-        chk.violate({"op": r["op"], "kind": "panic" if r["out"] == [3] else "unterminated" if r["view"] == "term" else "mismatch",
+        chk.violate({"op": r.get("via", r["op"]), "kind": "panic" if r["out"] == [3] else "unterminated" if r["view"] == "term" else "mismatch",
                      "shape": U.shape(r["out"])},
-                    "%s(a=%s, b=%s) stored %s: rejected by UnixStrJudge (view=%s)" % (r["op"], r["a"][:40], r["b"][:40], r["out"][:60], r["view"]),
+                    "%s(a=%s, b=%s) stored %s: rejected by UnixStrJudge (view=%s)" % (r.get("via", r["op"]), r["a"][:40], r["b"][:40], r["out"][:60], r["view"]),
                     {"mode": "judge", "record": r})
     for c, vs, mode in ((crashes, cvecs, "ctor"), (crashes2, pvecs, "pair"), (crashes3, rv, "pair"), (crashes4, cv, "ctor"), (crashes5, fv, "pair")):
         for x in c:
